@@ -14,6 +14,7 @@ type Val struct {
 	T       Term
 	Ty      types.Type
 	Loc     *Addr // located struct/array value (T unused)
+	Ptr     *Addr // pointer argument that is the address of a caller's field/element: *p is that location
 	Nil     bool
 	Untyped bool
 }
@@ -168,6 +169,9 @@ func (e *Env) eval(x SExpr) Val {
 			efail("deref of non-pointer")
 		}
 		a := t.addrOfTerm(v.T.S, pt.Elem())
+		if v.Ptr != nil {
+			a = v.Ptr
+		}
 		if a.Kind == aStruct || a.Kind == aArray {
 			return Val{Ty: pt.Elem(), Loc: a}
 		}
@@ -199,7 +203,7 @@ func (e *Env) eval(x SExpr) Val {
 		if x.Hi != nil {
 			hi = e.rvalue(e.eval(x.Hi)).T.S
 		}
-		return Val{T: Term{fmt.Sprintf("(mk-slice (s-base %[1]s) (+ (s-off %[1]s) %[2]s) (- %[3]s %[2]s) (- (s-cap %[1]s) %[2]s))", v.T.S, lo, hi), SSlc}, Ty: v.Ty}
+		return Val{T: Term{fmt.Sprintf("(mk-slice (s-base %s) %s %s %s)", v.T.S, linNorm(fmt.Sprintf("(+ (s-off %s) %s)", v.T.S, lo)), linNorm(fmt.Sprintf("(- %s %s)", hi, lo)), linNorm(fmt.Sprintf("(- (s-cap %s) %s)", v.T.S, lo))), SSlc}, Ty: v.Ty}
 	case *SCall:
 		return e.call(x)
 	case *SQuant:
@@ -425,7 +429,7 @@ func (e *Env) index(x *SIndex) Val {
 		if e.cur == nil {
 			efail("state access in pure context")
 		}
-		a := &Addr{Kind: aElem, Heap: elemHeapName(u.Elem()), Obj: fmt.Sprintf("(s-base %s)", v.T.S), Idx: fmt.Sprintf("(+ (s-off %s) %s)", v.T.S, i.T.S), Ty: u.Elem()}
+		a := &Addr{Kind: aElem, Heap: elemHeapName(u.Elem()), Obj: fmt.Sprintf("(s-base %s)", v.T.S), Idx: linNorm(fmt.Sprintf("(+ (s-off %s) %s)", v.T.S, i.T.S)), Ty: u.Elem()}
 		return Val{T: t.load(e.cur, a), Ty: u.Elem()}
 	case *types.Pointer:
 		if at, ok := u.Elem().Underlying().(*types.Array); ok {
@@ -561,27 +565,15 @@ func isLit(s string) (int64, bool) {
 func foldArith(op, a, b string) string {
 	x, ok1 := isLit(a)
 	y, ok2 := isLit(b)
-	if ok1 && ok2 {
-		var r int64
-		switch op {
-		case "+":
-			r = x + y
-		case "-":
-			r = x - y
-		case "*":
-			r = x * y
-		}
-		if (op == "+" || op == "-") || (x < 1<<30 && x > -(1<<30) && y < 1<<30 && y > -(1<<30)) {
-			return smtInt(strconv.FormatInt(r, 10))
+	if ok1 && ok2 && op == "*" {
+		if x < 1<<30 && x > -(1<<30) && y < 1<<30 && y > -(1<<30) {
+			return smtInt(strconv.FormatInt(x*y, 10))
 		}
 	}
-	if ok2 && y == 0 && (op == "+" || op == "-") {
-		return a
+	if op == "*" && !ok1 && !ok2 {
+		return fmt.Sprintf("(* %s %s)", a, b)
 	}
-	if ok1 && x == 0 && op == "+" {
-		return b
-	}
-	return fmt.Sprintf("(%s %s %s)", op, a, b)
+	return linNorm(fmt.Sprintf("(%s %s %s)", op, a, b))
 }
 
 func (e *Env) quant(x *SQuant) Val {
@@ -885,6 +877,33 @@ func (e *Env) call(x *SCall) Val {
 		k := e.rvalue(e.eval(x.Args[0]))
 		ks := t.vc.heapSort[e.visitedHeap]
 		return boolVal(fmt.Sprintf("(select %s %s)", t.heapGet(e.cur, e.visitedHeap, ks), k.T.S))
+	case "at", "oldat":
+		// at(s, a): the element of slice s's backing array at absolute index a;
+		// oldat(s, a): the same location in the pre-state (s and a evaluated now)
+		v := e.rvalue(e.eval(x.Args[0]))
+		sl, ok := v.Ty.Underlying().(*types.Slice)
+		if !ok {
+			efail("at() needs a slice")
+		}
+		i := e.rvalue(e.eval(x.Args[1]))
+		if e.cur == nil {
+			efail("state access in pure context")
+		}
+		a := &Addr{Kind: aElem, Heap: elemHeapName(sl.Elem()), Obj: fmt.Sprintf("(s-base %s)", v.T.S), Idx: linNorm(i.T.S), Ty: sl.Elem()}
+		if id.Name == "oldat" {
+			if e.old == nil {
+				efail("oldat() not available here")
+			}
+			return Val{T: t.load(e.old, a), Ty: sl.Elem()}
+		}
+		return Val{T: t.load(e.cur, a), Ty: sl.Elem()}
+	case "nonnilptr":
+		// the pointer held by an interface value is not nil
+		v := e.rvalue(e.eval(x.Args[0]))
+		if v.T.Sort != SIfc {
+			efail("nonnilptr() needs an interface value")
+		}
+		return boolVal(fmt.Sprintf("(not (= (i-val %s) 0))", v.T.S))
 	case "isobj":
 		// a reference to a separately allocated object (not an interior pointer, not nil)
 		v := e.rvalue(e.eval(x.Args[0]))
